@@ -19,6 +19,7 @@ enum Kind {
     K_SETFRIENDLY = 13,
     K_FAULT = 14,     // a: what, arg   (C18)
     K_PBURST = 15,    // a: first id, count   (generation-time marker, expanded into K_PROBE ops)
+    K_REPEAT = 19,    // a: n : the step that follows is carried out n times in a row (counters that wrap after 128 / 256 / 65536 occurrences)
     K_OTHERIF = 18    // a: what, station, x : a frame for ANOTHER interface of the same host (created on first use); see OtherIf
 };
 
@@ -136,6 +137,19 @@ struct OtherIf {
         steps++;
     }
 };
+
+// K_REPEAT n followed by a step X becomes n copies of X (at most 600); a trailing or doubled K_REPEAT is dropped
+static inline std::vector<Op> expand_repeats(const std::vector<Op> &in) {
+    std::vector<Op> out;
+    for (size_t i = 0; i < in.size(); i++) {
+        if (in[i].kind != K_REPEAT) { out.push_back(in[i]); continue; }
+        if (i + 1 >= in.size() || in[i + 1].kind == K_REPEAT) continue;
+        int64_t n = std::max<int64_t>(1, std::min<int64_t>(in[i].arg(0), 600));
+        for (int64_t k = 0; k < n; k++) out.push_back(in[i + 1]);
+        i++;
+    }
+    return out;
+}
 
 // resolve -1 to the active mapper (or station 0 when none)
 static inline int resolve_station(const Shadow &sh, int64_t s) { return s >= 0 ? (int)s : (sh.active >= 0 ? sh.active : 0); }
@@ -262,7 +276,7 @@ static inline void shadow_update(Shadow &sh, const Op &op, const Built &b) {
 // ------------------------------------------------------------------ generators
 struct HistWeights {
     int discover = 6, reset = 2, emit = 3, probe = 5, query = 3, qlt = 3, hello = 2, shell = 2, raw = 0,
-        tick = 0, advance = 1, seticon = 0, pburst = 0, otherif = 0;
+        tick = 0, advance = 1, seticon = 0, pburst = 0, otherif = 0, repeat = 0;
     int nstations = 3;
     bool commands_from_active_only = true;   // C05 domain restriction
     bool odd_tos = true;                     // Discover/Reset/QLT with ToS outside {0,1}
@@ -356,6 +370,8 @@ inline rc::Gen<Op> op_gen(const HistWeights &w) {
         Op o; o.kind = K_PBURST; o.a = {*range<int64_t>(100, 5000), *bnd({26, 27, 28, 29, 30, 72, 73, 74, 75}, 1, 120, 2, 1)}; return o; })});
     if (w.otherif) alts.push_back({(size_t)w.otherif, rc::gen::exec([=] {
         Op o; o.kind = K_OTHERIF; o.a = {*range<int64_t>(0, 8), *range<int64_t>(0, 2), *pick({1, 2, 3, 0x0101, 0x7FFF}), *pick({0, 0, 1})}; return o; })});
+    if (w.repeat) alts.push_back({(size_t)w.repeat, rc::gen::exec([=] {
+        Op o; o.kind = K_REPEAT; o.a = {*pick({2, 3, 127, 128, 129, 255, 256, 257})}; return o; })});
     if (w.seticon) alts.push_back({(size_t)w.seticon, rc::gen::exec([=] { Op o; o.kind = K_SETICON; o.blob = *bytes(1, 700); return o; })});
     return gx::weighted<Op>(alts);
 }
